@@ -19,8 +19,9 @@ static Mat unitary(int d, int which) {
 }
 
 struct Family { const char* name; bool normal; double maxnorm; };
-static const Family FAM[] = {{"anti-hermitian", true, 1e3}, {"complex-diagonal", true, 50}, {"nilpotent", false, 50}, {"dense-nonnormal", false, 50}, {"normal-bounded-real", true, 1e3}, {"rank-one", false, 50}, {"block-2+rest", false, 50}, {"strictly-lower-triangular", false, 50}, {"lower-triangular", false, 50}, {"single-offdiagonal-entry", false, 50}};
-static const int NFAM = 10;
+static const Family FAM[] = {{"anti-hermitian", true, 1e3}, {"complex-diagonal", true, 50}, {"nilpotent", false, 50}, {"dense-nonnormal", false, 50}, {"normal-bounded-real", true, 1e3}, {"rank-one", false, 50}, {"block-2+rest", false, 50}, {"strictly-lower-triangular", false, 50}, {"lower-triangular", false, 50}, {"single-offdiagonal-entry", false, 50},
+                             {"zero-row-sums-anti-hermitian", true, 50}, {"decoupled-levels-normal", true, 50}};
+static const int NFAM = 12;
 
 static Mat shape(int f, int n, int w) {
   Mat m(n);
@@ -34,6 +35,14 @@ static Mat shape(int f, int n, int w) {
     case 7: for (int i = 0; i < n; i++) for (int j = 0; j < i; j++) m(i, j) = cd(1.0 + 0.3 * i - 0.2 * j + 0.1 * w, 0.5 * (i + 1) - 0.4 * j); break;
     case 8: for (int i = 0; i < n; i++) for (int j = 0; j <= i; j++) m(i, j) = cd(std::cos(1.0 + 0.3 * i - 0.2 * j + 0.1 * w), (i == j) ? 0.3 * i - 0.4 : 0.5 * (i + 1) - 0.4 * j); break;
     case 9: for (int i = 0; i < n; i++) m(i, i) = cd(0.2 * i - 0.3, 0.1 * i); m(n - 1, 0) = cd(0.9, -0.4 - 0.1 * w); break;   // one entry in the lower-left corner
+    // i*L with L a weighted graph Laplacian: the all-ones vector (and, for the pair graph, many +-1 vectors) is in the kernel, so a
+    // norm estimate started from such vectors sees zero although the matrix is large
+    case 10: { Mat L(n); auto edge = [&](int i, int j, double wt) { L(i, i) += wt; L(j, j) += wt; L(i, j) -= wt; L(j, i) -= wt; };
+      if (w % 2 == 0 || n < 4) edge(n - 2, n - 1, 1.0); else { edge(n - 4, n - 3, 1.0); edge(n - 4, n - 2, -1.0); edge(n - 3, n - 1, -1.0); edge(n - 2, n - 1, 1.0); }
+      m = cd(0, 1) * L; } break;
+    // a normal matrix whose first levels are decoupled from a rotated pair: eigenvalue mu on (..,1,1)/sqrt2 and i*w on (..,1,-1)/sqrt2, zeros elsewhere
+    case 11: { cd mu = (w % 2 == 0) ? cd(1.0 / 40, 0) : cd(0.5 / 12, 0), iw = cd(0, 1); int a = n - 2, b = n - 1;
+      m(a, a) = (mu + iw) * 0.5; m(b, b) = (mu + iw) * 0.5; m(a, b) = (mu - iw) * 0.5; m(b, a) = (mu - iw) * 0.5; } break;
     case 6: { m(0, 0) = cd(0.3, 1); m(0, 1) = cd(1, -0.5); m(1, 0) = cd(-0.7, 0.2); m(1, 1) = cd(-0.3, -1); for (int i = 2; i < n; i++) for (int j = 2; j < n; j++) m(i, j) = cd(std::sin(1.0 + 2.3 * i + 0.9 * j + w), (i == j) ? 0.4 : std::cos(i - 1.9 * j)); } break;
   }
   return m;
@@ -119,6 +128,12 @@ int main(int argc, char** argv) {
     for (int k = 0; k < nn; k++) Vs.push_back(unit(d, k));
     if (!ar.reduced) for (int k = 1; k < nn; k += (th ? 1 : 3)) for (int l = k + 1; l < nn; l += (th ? 1 : 2)) Vs.push_back(twohot(d, k, l, 1.0, -0.7));
     for (int w = 0; w < 3; w++) Vs.push_back(probe(d, w));
+    // large multiples of operators with the all-ones vector in their kernel: c * projector onto (e_i - e_j)/sqrt2, c * 4-cycle pattern; c * single projectors
+    if (!ar.reduced) for (double c : {1.2, 3.0}) {   // times |s| = 10 below: norms 12..60
+      { Mat P(d); int a = d - 2, b = d - 1; P(a, a) = 0.5; P(b, b) = 0.5; P(a, b) = -0.5; P(b, a) = -0.5; Vs.push_back(scaled(B.proj(P), c)); }
+      if (d >= 4) { Mat P(d); const int pat[4][4] = {{0, 1, -1, 0}, {1, 0, 0, -1}, {-1, 0, 0, 1}, {0, -1, 1, 0}}; for (int i = 0; i < 4; i++) for (int j = 0; j < 4; j++) P(d - 4 + i, d - 4 + j) = pat[i][j]; Vs.push_back(scaled(B.proj(P), c)); }
+      Vs.push_back(scaled(B.proj(ref::E(d, d - 1, d - 1)), c));
+    }
     std::vector<std::vector<double>> As = {probe(d, 1), unit(d, 1), unit(d, nn - 1)};
     for (auto& vc : Vs) for (double s : {0.0, 0.3, -0.3, 1.0, -2.5, 10.0}) {
       Mat V = B.tomat(vc); Mat Ef = ref::expm(cd(0, s) * V), Eb = ref::dagger(Ef);
